@@ -349,6 +349,42 @@ var kC05 = run.NewKind("c05.isolation", func(c *run.Ctx, t c05Case) *run.Fail {
 	if f := same(r4, "the fourth run"); f != nil {
 		return f
 	}
+	// runs are isolated in time too: an iterator that has finished stays finished while later runs of the same code
+	// are under way, and polling it does not disturb them
+	if first.end == "end" && t.Abandon == 0 && len(first.canon) <= 200 {
+		in5, v5 := t.build()
+		a := code.RunWithContext(run.Budget(defBudget), in5, v5)
+		for {
+			if _, ok := a.Next(); !ok {
+				break
+			}
+		}
+		in6, v6 := t.build()
+		b := code.RunWithContext(run.Budget(defBudget), in6, v6)
+		var got []string
+		for n := 0; n <= len(first.canon)+2; n++ {
+			if v, ok := a.Next(); ok {
+				return run.Failf("%q: an iterator that had returned false returns %s again after another run of the same code was started (%d values into that run)", t.Src, run.Clip(run.Canon(v)), n)
+			}
+			v, ok := b.Next()
+			if !ok {
+				break
+			}
+			if _, isErr := v.(error); isErr {
+				break
+			}
+			got = append(got, run.Canon(v))
+		}
+		if len(got) != len(first.canon) {
+			return run.Failf("%q: a run during which a finished iterator of the same code was polled gave %d outputs, alone %d", t.Src, len(got), len(first.canon))
+		}
+		for i := range got {
+			if got[i] != first.canon[i] {
+				return run.Failf("%q: a run during which a finished iterator of the same code was polled: output #%d is %s, alone %s", t.Src, i, run.Clip(got[i]), run.Clip(first.canon[i]))
+			}
+		}
+		c.Count("finished_iterators_polled_during_later_runs", 1)
+	}
 	c.AddEvals(4)
 	if len(first.canon) > 0 {
 		c.Nontrivial(fmt.Sprintf("%s|%d|%d", t.Src, t.Alias, t.Abandon))
@@ -414,6 +450,9 @@ func sweepPrograms(r interface{ IntN(int) int }, perBuiltin int) []string {
 }
 
 var c05Hand = []string{
+	// lists the implementation collects from its own tables: the same list, in the same order, on every run
+	"[builtins] | length", "builtins | .[:12]", "[builtins, builtins] | .[0] == .[1]", "builtins | map(select(startswith(\"range/\") or startswith(\"add/\") or startswith(\"recurse/\")))", "builtins | sort == .", "[builtins | .[] | select(test(\"^l\"))]",
+	"[env | keys[:3]]", "$ENV | length", "[getpath([\"a\"]), paths] | length", "keys?, (to_entries? | map(.key))", "[splits(\"a\")?]", "@json \"\\(.)\", tojson, tostring",
 	// folds that start from a neutral element ({} / [] / "" / 0 / null): the accumulator must not become one of the operands
 	"[{}, .[]?] | add", "[null, {}, .[]?] | add?", "[{}, $v, .] | add?", "add({}, $v, .)?", "[{}, .a?, .c?] | add?", "[[], .[]?] | add?", "[\"\", .[]?] | add?", "[0, .[]?] | add?", "[null, .[]?] | add?", "[{}, {}, null, .[]?] | add?",
 	"reduce .[]? as $x ({}; . + $x)?", "reduce .[]? as $x (null; . + $x)?", "reduce .[]? as $x ([]; . + $x)?", "reduce .[]? as $x ({}; . * $x)?", "({} + .) | .zz = 1?", "(. + {}) | .zz = 1?", "([] + .) | .[0] = 1?", "(. + []) | .[0] = 1?", "(null + .) | .[0]? = 1",
